@@ -2,6 +2,7 @@
 #include <compressor.h>
 #include <serialize.h>
 #include <script/script.h>
+#include <crypto/hex_base.h>
 VERIF_PARAMS(ser)
 {
     DZU(MAX_SIZE);
@@ -14,5 +15,9 @@ VERIF_PARAMS(ser)
     // GetSpecialScriptSize(0..5), as a list
     std::cout << "Definition SPECIAL_SCRIPT_SIZES : list Z := [";
     for (unsigned int i = 0; i < N_SPECIAL_SCRIPTS; ++i) std::cout << (i ? "; " : "") << "(" << GetSpecialScriptSize(i) << ")%Z";
+    std::cout << "].\n";
+    // HexDigit(c) for c = 0..255 (the p_util_hexdigit table)
+    std::cout << "Definition HEXDIGIT_TABLE : list Z := [";
+    for (int c = 0; c < 256; ++c) std::cout << (c ? "; " : "") << "(" << (int)HexDigit((char)c) << ")%Z";
     std::cout << "].\n";
 }
